@@ -379,9 +379,11 @@ func (ex *Exec) evalBuiltin(st *State, call *ast.CallExpr, name string) []Val {
 // evalAppend models append faithfully: in place when capacity suffices, fresh
 // backing array otherwise. The resulting inner array is a fresh symbol `res`
 // specified declaratively over absolute positions:
-//   prefix:   res[off'+j] = old[off+j]                 (j < len)
-//   appended: res[off'+len+i] = new element i
-//   frame:    in place, every other position of the array is unchanged
+//
+//	prefix:   res[off'+j] = old[off+j]                 (j < len)
+//	appended: res[off'+len+i] = new element i
+//	frame:    in place, every other position of the array is unchanged
+//
 // with off' = off in place and 0 otherwise.
 func (ex *Exec) evalAppend(st *State, call *ast.CallExpr) Val {
 	s := ex.evalTyped(st, call.Args[0], ex.typeOf(call))
@@ -490,6 +492,13 @@ func (ex *Exec) evalAppend(st *State, call *ast.CallExpr) Val {
 // ---- in-package calls ----
 
 func (ex *Exec) callInPackage(st *State, call *ast.CallExpr, fi *FuncInfo, recv *Val, args []Val) []Val {
+	// implicit contract of every method with a pointer receiver: the receiver is not nil
+	// (assumed when the method is verified, asserted at every call site)
+	if recv != nil {
+		if _, isPtr := recv.T.Underlying().(*types.Pointer); isPtr {
+			ex.oblig(st, "pre@call", call, fi.Key+":receiver-non-nil", Neq(recv.C[0], IntLit(0)))
+		}
+	}
 	if fi.Contract != nil && !ex.inlineAlways(fi) {
 		return ex.applyContract(st, call, fi.Contract, fi.Sig, fi.Key, recv, args, fi)
 	}
@@ -568,7 +577,7 @@ func (ex *Exec) inline(st *State, call ast.Node, fi *FuncInfo, recv *Val, args [
 				break
 			}
 		}
-		c := And(r.st.facts[n:]...)
+		c := r.st.disc(n)
 		nv := make([]Val, nres)
 		for i := 0; i < nres; i++ {
 			nv[i] = iteVal(c, r.vals[i], vals[i])
@@ -647,8 +656,15 @@ func (ex *Exec) applyContract(st *State, call ast.Node, c *Contract, sig *types.
 	}
 	// ghost functions of the callee, instantiated on the pre-call state
 	ex.instantiateGhostFuns(st, c, mk(pre, pre), ghosts, fmt.Sprintf("%s.c%d", sanitize(key), seq), false)
+	// requires labelled [fn...] are needed only for the functional ensures: they are not demanded
+	// at call sites; the ensures are then assumed under them
+	fnGuard := True
 	for i, r := range c.Requires {
 		t := ex.evalSpecBoolAt(mk(st, pre), r.E, key+" requires")
+		if isFnLabel(r.Label) {
+			fnGuard = And(fnGuard, t)
+			continue
+		}
 		ex.oblig(st, "pre@call", call, fmt.Sprintf("%s:%s", key, clauseLabel(r, i, "req")), t)
 	}
 	// havoc the frame
@@ -687,7 +703,7 @@ func (ex *Exec) applyContract(st *State, call ast.Node, c *Contract, sig *types.
 	}
 	for _, e := range c.Ensures {
 		t := ex.evalSpecBoolAt(mk(st, pre), e.E, key+" ensures")
-		st.assume(t)
+		st.assume(Implies(fnGuard, t))
 	}
 	ex.mutCount++
 	return results
@@ -1008,3 +1024,5 @@ func (ex *Exec) smallBody(fi *FuncInfo) bool {
 	})
 	return n <= 14 && !loops
 }
+
+func isFnLabel(l string) bool { return l == "fn" || strings.HasPrefix(l, "fn-") }
